@@ -54,7 +54,8 @@ CHECKS["C12"] = {
              "transposed dual with the frame recorded on exactly the paths that rewrite the payload and the default old "
              "frame read first; force-at-a-point wrenches are [p x f ; f]; mixed-frame arithmetic converts a copy of the "
              "right operand into the left operand's frame. The numerical identities (A->B->C = A->C to 1e-8) then rest "
-             "on the SE(3) algebra decided under C01/C04 and are not themselves decided. Also (R12.5): closure obligations on the primitives under changeFrame; identity-element branches (x + 0, x * 1) are recognised as value-preserving. R12.6: a 6-element array operand of + / - (either side) meets the 6x1 payload as a column (case analysis on isinstance(other, np.ndarray) and len(other) == 6), so (a + b) - b = a holds for array b."),
+             "on the SE(3) algebra decided under C01/C04 and are not themselves decided. Also (R12.5): closure obligations on the primitives under changeFrame; identity-element branches (x + 0, x * 1) are recognised as value-preserving. R12.6: a 6-element array operand of + / - (either side) meets the 6x1 payload as a column (case analysis on isinstance(other, np.ndarray) and len(other) == 6), so (a + b) - b = a holds for array b."
+             " R12.7: operator dispatch - when a subclass of Screw overrides a reflected + / -, Python answers `Screw <op> Subclass` with that method first; the Screw-operand branch it reaches (through super() if it delegates) must reconcile the frames, not combine the raw payloads."),
     "note": "Trusted: globalToLocal(a,b)=inv(a)*b and adjoint() (decided under C01/C04); NumPy broadcasting semantics.",
 }
 
@@ -69,7 +70,8 @@ CHECKS["C16"] = {
              "choose-parent storing the compared cost, only the not-yet-inserted node is ever wired (acyclic by "
              "construction), path extraction by parent walk + goal, and a non-zero divisor in the progress display for "
              "every budget >= 1. Numerical distances and the R-tree's nearest-neighbour answers are not decided. Also: R16.5 strict improvement is decided on must-hold facts at the re-parenting cost store (guard clauses understood); R16.8 the choose-parent scan visits every neighbour the query returned (no break/return, full range). R16.9: the spatial index stores and queries a node at the point box of its own position for each supported dimensionality; a node is inserted without a parent only under the fact that the neighbour query came back empty; the goal is appended to the path unconditionally."
-             " R16.6: the path is read positionally (parent walk, append + reverse idiom accepted); setParent does not rewrite the stored cost (the cost is the planner's, measured with the planner's distance)."),
+             " R16.6: the path is read positionally (parent walk, append + reverse idiom accepted); setParent does not rewrite the stored cost (the cost is the planner's, measured with the planner's distance)."
+             " R16.6 also: generateTree hands generalGenerateTree the planner's own distance and obstruction applied to exactly the two nodes (a pre-filtered obstruction subset is a violation)."),
     "note": "Trusted: purity of caller-supplied callbacks; rtree nearest() (library).",
 }
 
@@ -83,7 +85,8 @@ CHECKS["C15"] = {
              "reject-next-box / accept / default-False control skeleton and (min, max) corner storage. Exactness including "
              "boundary contact then follows from the separating-axis theorem; this is as strong as a static argument gets "
              "here. Floating-point rounding within 1e-9 of contact is not decided. R15.4: each planner owns its obstruction list (fresh list on every constructor path, no mutable default argument or class attribute, only addObstruction writes it), so the boxes tested are the ones registered on that planner."
-             " R15.3: addObstruction stores, for each axis, both corner ends (in either order, or as min/max) and appends exactly one box on every path; no registered box is dropped."),
+             " R15.3: addObstruction stores, for each axis, both corner ends (in either order, or as min/max) and appends exactly one box on every path; no registered box is dropped."
+             " R15.5: the corners read by the test are the corners registered: the six-vector constructor form of tm stores entries 0..2 of its argument in rows 0..2 (element-flow evaluation, both rpy flags) and nothing it calls rewrites those rows in place; indexing reads the six-vector."),
     "note": "Trusted: separating-axis theorem for a segment and an axis-aligned box; NumPy element-wise arithmetic.",
 }
 
@@ -130,7 +133,8 @@ CHECKS["C17"] = {
              "at every kernel call site of the Python layers the extents made explicit by argument slices agree with the "
              "contract's equalities (this is what finds an i-column view passed with i+1 joint values). 'Compiled equals "
              "interpreted' is not decided (Numba code generation is the trusted base). R17.2 is path-sensitive: a shape environment follows named slices to the kernel call. Per-joint tables of the arm passed whole (extent num_dof) are compared with sliced vectors at kernel call sites."
-             " R17.1 also checks kernel-to-kernel call arguments: a slice passed to another kernel (Norm(Vs[3:5])) must have the extent that kernel's contract reads."),
+             " R17.1 also checks kernel-to-kernel call arguments: a slice passed to another kernel (Norm(Vs[3:5])) must have the extent that kernel's contract reads."
+             " R17.3: direction of the (screw table, joint vector) contract - the seven kernels taking both are re-analysed with cols(table) = n + slack, slack >= 0: every index must stay in bounds when the table has more columns than the vector has entries (the Python layers pass the whole table with a caller-length vector)."),
     "note": "Trusted: shape contracts in sa/engine/mrspec.py (docstrings); Numba code generation; callers not analysed pass arrays that satisfy the contracts.",
 }
 
@@ -146,7 +150,8 @@ CHECKS["C05"] = {
              "arguments are resolved before use; move() re-initialises from the stored original screws and local home; no state "
              "pose object is mutated through an alias; NumPy attributes used exist (an Arm can be built). Equality with the "
              "product of exponentials to 1e-7 is not decided here (kernel: C02). Also: R05.7 the backup used by restoreOriginalEE is refreshed whenever the home tool pose is rewritten for a new base; R05.8 closure obligations on the port primitives FK reaches; the clamp of thetaProtector is decided structurally (each out-of-range side replaced by the bound it violates, guard admits every clamp)."
-             " R05.11: pose fields that can come to share one object (the home tool pose and its backup, handed over by plain assignment in restoreOriginalEE) are never mutated in place, only rebound; an in-place writer on either makes a later restore return the changed pose."),
+             " R05.11: pose fields that can come to share one object (the home tool pose and its backup, handed over by plain assignment in restoreOriginalEE) are never mutated in place, only rebound; an in-place writer on either makes a later restore return the changed pose."
+             " R05.12: no kernel or helper that an Arm method hands a view of its stored joint vector to (angleMod hands its argument back, reshape is a view) writes into that argument (effects summary of the callee)."),
     "note": "Trusted: FKinSpace (C02); parameters documented as transforms are transforms; num_dof >= 1.",
 }
 
@@ -159,7 +164,8 @@ CHECKS["C06"] = {
              "of all public methods (so a tool change or move can never leave a self-consistent Jacobian of another model); "
              "each variant pairs the right screw list with the right kernel and change of frame; the four statics methods form "
              "the (space|body)x(forward|inverse) table with J^T and pinv(J^T); link-mass statics adds exactly one weight per "
-             "link with one index for cg/mass/pose/prefix Jacobian. Derivative-of-FK equalities are not decided. Also (R06.5): the Jacobian primitives reached from the arm have the reference's normal form."),
+             "link with one index for cg/mass/pose/prefix Jacobian. Derivative-of-FK equalities are not decided. Also (R06.5): the Jacobian primitives reached from the arm have the reference's normal form."
+             " R06.7: numericalJacobian leaves the arm at the configuration it was evaluated at: the state-writing FK closure is last called at the unperturbed joint vector, by the finite-difference driver (path summaries of the driver) or by the method after the driver."),
     "note": "Trusted: JacobianSpace/JacobianBody/Adjoint (C01/C02). The length contract of _link_masses (n+1, index 0 = base link, as the URDF loader produces) is an input contract, not checked.",
 }
 
@@ -219,7 +225,8 @@ CHECKS["C18"] = {
              "(log of a rotation, never of a scaled rotation); IKPath has steps poses, evenly spaced, ending at the goal; "
              "gap closing advances by delta along the unit direction; the midpoint is mean position + exp(log(R2 R1^T)/2)R1; "
              "sphere samplers satisfy x^2+y^2+z^2 = 1 identically; chainJacobian follows the JacobianSpace recurrence; lookAt "
-             "builds a right-handed frame. Geodesic/metric relations as numbers and the optimiser-based helper are not decided. Helper formulas (IKPath, closeLinearGap, midpoint, lookAt, chainJacobian, tripleUnit) are decided by normal-form equality with reference implementations written from the definitions; R18.7 closure obligations."),
+             "builds a right-handed frame. Geodesic/metric relations as numbers and the optimiser-based helper are not decided. Helper formulas (IKPath, closeLinearGap, midpoint, lookAt, chainJacobian, tripleUnit) are decided by normal-form equality with reference implementations written from the definitions; R18.7 closure obligations."
+             " R18.2 also bounds the in-place stores of tm.angleMod to the rotation rows 3..5 of the six-vector. R18.4 decides lookAt structurally when it is not written like the reference: on every returning path the result is tm(M) with the position kept, z = unit(target - position), y = z x x and x a unit vector orthogonal to z (unit(u x z), or a constant unit vector orthogonal to u only under a fact that |u x z| vanishes)."),
     "note": "Trusted: exp/log primitives (C01); NumPy element-wise semantics.",
 }
 
@@ -233,7 +240,8 @@ CHECKS["C04"] = {
              "flag forwarded; `@`/reflected `@` multiply the 4x4 matrices in operand order and the other dunders apply their own "
              "operator; inv() is TransInv; the quaternion getter/setter use one convention on one block and re-sync; "
              "LocalToGlobal/GlobalToLocal are literally ref*rel and inv(ref)*rel in rotation-vector form and the wrappers pass "
-             "(reference, rel) in order. Associativity, inverse laws and cross-form equality to 5e-6 are numerical and not decided. Also (R04.5): every compiled primitive reachable from the constructor sync, inv and the frame-conversion helpers has the normal form of the pinned reference (closure obligations), so a defect in exp/log breaks this property's check too."),
+             "(reference, rel) in order. Associativity, inverse laws and cross-form equality to 5e-6 are numerical and not decided. Also (R04.5): every compiled primitive reachable from the constructor sync, inv and the frame-conversion helpers has the normal form of the pinned reference (closure obligations), so a defect in exp/log breaks this property's check too."
+             " R04.1 also: nothing a constructor form calls on self rewrites the translation rows of the six-vector in place (in-place stores of mutators such as angleMod are bounded to rows 3..5)."),
     "note": "Trusted: exp/log/TransInv (C01/C02); scipy Rotation default quaternion convention.",
 }
 
@@ -247,7 +255,8 @@ CHECKS["C20"] = {
              "forwarded through the <=4-D recursion; the dims dispatch is exhaustive; probes that raise on 0-d / shapeless "
              "objects sit inside the catch-all fallback; round() is only reached for finite |x| >= 9999. Exception freedom for "
              "arbitrary Python objects (dynamic __str__/__format__) is NOT decided. The formatted value must be the array element itself on every path (alias-aware); locals are identified by role. R20.6: in the renderer for lists of transforms / wrenches every integer conversion of an entry is dominated by abs(x) >= 9999 and not isinf(x), so NaN and infinite entries are rendered instead of raising."
-             " R20.1 is path-based: on every path of disp the renderer receives the parameters themselves (matrix, nd, ...) or a view/reshape of them, never a value-modified copy."),
+             " R20.1 is path-based: on every path of disp the renderer receives the parameters themselves (matrix, nd, ...) or a view/reshape of them, never a value-modified copy."
+             " R20.7: the payload of a Screw / Wrench is stored as a 6x1 column on every path of Screw.__init__ (reshape to (6,1), a (6,1) zero column, or the argument itself only under the fact shape == (6,1)): disp indexes wrenches over that grid."),
     "note": "Trusted: Python string formatting of finite floats; the stated input kinds.",
 }
 
@@ -305,7 +314,8 @@ CHECKS["C11"] = {
              "uses point, direction and magnitude of the same leg; the load handed to the static solve in carryMassCalc is exactly "
              "applied wrench + top plate weight + six shaft weights, motors and bottom plate only afterwards; Robot derives "
              "jacobian() as pinv(inverseJacobian()). Derivative and equilibrium identities are numerical and not decided."
-             " R11.4: the statics table of Robot (staticForces / staticForcesBody / their inverses) is decided in this check too: each entry is the transposed (space / body) Jacobian or its pseudo-inverse applied to the wrench payload, without a frame change of the argument."),
+             " R11.4: the statics table of Robot (staticForces / staticForcesBody / their inverses) is decided in this check too: each entry is the transposed (space / body) Jacobian or its pseudo-inverse applied to the wrench payload, without a frame change of the argument."
+             " R11.5: getActuatorLoc(i, 't'/'b') is getUnitVec(own joint of leg i, other joint of leg i, configured offset) with the offset the configured constant itself (never a function of the current leg length), and getUnitVec is first point + unit(second - first) * distance (reference comparison)."),
     "note": "Trusted: makeWrench / Wrench layout (C12); Robot statics table (C06).",
 }
 
